@@ -42,7 +42,13 @@ RULE = (
     "with <=3 fields, scripted ==-classes / hash codes / key function on {0,1,2}, 1-2 instances and histories of <=9 "
     "operations (hash / copy / deepcopy / pickle protocols 2-5 / evolve / field write), 30% of them scripted as hash, derive, "
     "write to the derived instance, hash both; non-trivial = a hash operation on a class with an attrs-generated hash, or a "
-    "table row that is not the default row (attr.s, nothing passed, no base); distinct = distinct JSON case. T3: for every "
+    "table row that is not the default row (attr.s, nothing passed, no base); distinct = distinct JSON case. Multiple "
+    "inheritance rows of the table (modelled: a frozen class anywhere among the bases, in any order, freezes the class): "
+    "the last class below a chain parent {none, plain, mutable attr.s, mutable define dict, frozen dict, frozen slotted, "
+    "frozen through a plain class, frozen grandparent} and one or two further bases {plain mixin, mutable attrs dict / "
+    "slotted, frozen attr.s / define dict / frozen-api dict / slotted, frozen base under a plain class, diamond through "
+    "chain class 0 as plain / mutable / frozen}, listed before or after the parent, x 10 leaf variants (6 760 rows, all in "
+    "the thorough tier, 900 sampled in quick; at most one slotted lineage, CPython's layout rule). T3: for every "
     "generated chain of the instance streams and every varied table row with a field (every 10th in the quick tier, about "
     "400 cases, all in the thorough tier; non-exception chains with <= 3 fields) one `script` case: the chain is defined "
     "afresh, the real source text of the last class's own generated __hash__ -- and of its twin's, defined without "
@@ -174,9 +180,9 @@ def _kw(c):
 ROOTS = ["Exception", "BaseException", "KeyboardInterrupt", "SystemExit", "GeneratorExit", "ValueError"]
 
 
-def _class_src(k, c, root):
-    base = f"C{k - 1}" if k else root
-    lines = [f"class C{k}({base}):"]
+def _class_src(k, c, root, bases=None, name=None):
+    base = ", ".join(bases) if bases else (f"C{k - 1}" if k else root)
+    lines = [f"class {name or f'C{k}'}({base}):"]
     for f in c["fields"]:
         args = []
         if f.get("alias"):
@@ -223,7 +229,26 @@ def _kind(cls, orig):
     return "other"
 
 
-def _build_chain(root, chain, register):
+def _define_sides(ns, side):
+    """further bases of the last class: S<i> (decorated unless plain), optionally under a plain SP<i>; returns the
+    names the last class lists"""
+    names = []
+    for i, sd in enumerate(side):
+        c = sd["cls"]
+        base = [f"C{sd['via']}"] if sd.get("via") is not None else ["object"]
+        exec(_class_src(0, c, "object", bases=base, name=f"S{i}"), ns)  # noqa: S102
+        if c["api"] != "plain":
+            deco = {"attrS": attr.s, "define": attrs.define, "frozen": attrs.frozen}[c["api"]]
+            ns[f"S{i}"] = deco(**_kw(c))(ns[f"S{i}"])
+        if sd.get("plainAbove"):
+            exec(f"class SP{i}(S{i}):\n    pass", ns)  # noqa: S102
+            names.append(f"SP{i}")
+        else:
+            names.append(f"S{i}")
+    return names
+
+
+def _build_chain(root, chain, register, side=(), side_first=False):
     """returns (kinds, classes or None, module, tag of the chain's key function). classes is None when a definition failed."""
     _BUILDS[0] += 1
     if _BUILDS[0] % 100 == 0:
@@ -244,7 +269,20 @@ def _build_chain(root, chain, register):
         sys.modules[_MOD] = mod
     try:
         for k, c in enumerate(chain):
-            exec(_class_src(k, c, root), ns)  # noqa: S102
+            bases = None
+            if side and k == len(chain) - 1:
+                try:
+                    snames = _define_sides(ns, side)
+                except Exception:  # noqa: BLE001 -- the further bases are chosen so that they always define
+                    kinds.append("other")
+                    return kinds, None, mod, key.tag
+                parent = [f"C{k - 1}"] if k else ([] if root == "object" else [root])
+                bases = snames + parent if side_first else parent + snames
+            try:
+                exec(_class_src(k, c, root, bases=bases), ns)  # noqa: S102
+            except Exception:  # noqa: BLE001 -- CPython refused the bases (layout / MRO)
+                kinds.append("other")
+                return kinds, None, mod, key.tag
             cls = ns[f"C{k}"]
             orig = cls.__dict__.get("__hash__")
             if c["api"] != "plain":
@@ -279,8 +317,10 @@ def _root(case):
     return r if r in ROOTS else "Exception"
 
 
-def _chain_key(root, chain):
-    return repr((root, [sorted((k, repr(v)) for k, v in c.items()) for c in chain]))
+def _chain_key(root, chain, side=(), side_first=False):
+    return repr((root, [sorted((k, repr(v)) for k, v in c.items()) for c in chain],
+                 [(sorted((k, repr(v)) for k, v in sd["cls"].items()), sd.get("via"), sd.get("plainAbove")) for sd in side],
+                 side_first))
 
 
 def _define_decoys(root, chain, key):
@@ -303,7 +343,8 @@ def _define_decoys(root, chain, key):
 
 def build(case):
     root = _root(case)
-    key = _chain_key(root, case["chain"])
+    side, side_first = case.get("side", []), case.get("sideFirst", False)
+    key = _chain_key(root, case["chain"], side, side_first)
     need_twin = bool(case["insts"] or case["ops"])
     got = _CACHE.get(key)
     if got is None:
@@ -311,7 +352,7 @@ def build(case):
             _CACHE.clear()
             common.purge_linecache()
         _define_decoys(root, case["chain"], key)
-        kinds, classes, mod, tag = _build_chain(root, case["chain"], register=True)
+        kinds, classes, mod, tag = _build_chain(root, case["chain"], register=True, side=side, side_first=side_first)
         got = [kinds, classes, None, mod, {tag}]
         _CACHE[key] = got
     if need_twin and got[1] is not None and got[2] is None:
@@ -501,8 +542,10 @@ def cls_spec(api="attrS", **kw):
 
 
 def mk_case(chain, exc_base=False, insts=(), ops=(), eqc=(0, 1, 2), hcode=(0, 1, 2), key_map=(0, 1, 2), **cfg):
-    return {"excBase": exc_base, "chain": chain, "eqc": list(eqc), "hcode": list(hcode), "keyMap": list(key_map),
-            "insts": [list(v) for v in insts], "ops": list(ops), "cfg": cfg}
+    side = cfg.pop("side", [])
+    side_first = cfg.pop("side_first", False)
+    return {"excBase": exc_base, "chain": chain, "side": side, "sideFirst": side_first, "eqc": list(eqc),
+            "hcode": list(hcode), "keyMap": list(key_map), "insts": [list(v) for v in insts], "ops": list(ops), "cfg": cfg}
 
 
 def fld(name, eq="t", hash=None, py=None, alias=None):  # noqa: A002
@@ -938,8 +981,72 @@ def _change_block(rng, k_max):
                     yield chain, x, ops
 
 
+def _side(api="plain", via=None, plain_above=False, **kw):
+    return {"cls": cls_spec(api, **kw), "via": via, "plainAbove": plain_above}
+
+
+def _layout_ok(chain, side):
+    """Python mirror of Spec.layoutOk (generator-side only)"""
+    sl = lambda c: c["api"] != "plain" and _slots_eff(c)  # noqa: E731
+    chain_sl = any(sl(c) for c in chain[:-1])
+    n = (1 if chain_sl else 0) + sum(1 for sd in side if sl(sd["cls"]))
+    return n <= 1 and all(sd.get("via") is None or (not sl(sd["cls"]) and not chain_sl) for sd in side)
+
+
+def _mi_rows():
+    """multiple inheritance for 'frozen, also by inheritance': the last class below a chain parent and one or two
+    further bases, in both orders"""
+    parents = {
+        "none": [],
+        "plain": [cls_spec("plain")],
+        "mutable": [cls_spec("attrS")],
+        "mutable_define_dict": [cls_spec("define", slots="f")],
+        "frozen_dict": [cls_spec("attrS", frozen="t")],
+        "frozen_slotted": [cls_spec("define", frozen="t")],
+        "frozen_via_plain": [cls_spec("attrS", frozen="t"), cls_spec("plain")],
+        "frozen_grandparent": [cls_spec("frozen", slots="f"), cls_spec("define", slots="f")],
+    }
+    sides = {
+        "plain": lambda: _side(),
+        "mutable": lambda: _side("attrS"),
+        "mutable_slotted": lambda: _side("define"),
+        "frozen_dict": lambda: _side("attrS", frozen="t"),
+        "frozen_define_dict": lambda: _side("define", frozen="t", slots="f"),
+        "frozen_slotted": lambda: _side("frozen"),
+        "frozen_under_plain": lambda: _side("attrS", frozen="t", plain_above=True),
+        "frozen_api_dict": lambda: _side("frozen", slots="f"),
+        "diamond_plain": lambda: _side("plain", via=0),
+        "diamond_mutable": lambda: _side("attrS", via=0),
+        "diamond_frozen": lambda: _side("attrS", via=0, frozen="t"),
+    }
+    leaves = [
+        lambda: cls_spec("attrS"), lambda: cls_spec("define", slots="f"), lambda: cls_spec("define"),
+        lambda: cls_spec("attrS", eq="f"), lambda: cls_spec("attrS", unsafeHash="t"),
+        lambda: cls_spec("attrS", frozen="t"), lambda: cls_spec("define", slots="f", cacheHash="t"),
+        lambda: cls_spec("attrS", autoDetect="t", ownHash="func"), lambda: cls_spec("plain"),
+        lambda: cls_spec("frozen", slots="f", frozen="f"),
+    ]
+    for pname, parent in parents.items():
+        for s1 in sides:
+            for s2 in [None, "plain", "mutable", "frozen_dict", "frozen_under_plain"]:
+                if s2 == s1:
+                    continue
+                for first in (False, True):
+                    for leaf in leaves:
+                        side = [sides[s1]()] + ([sides[s2]()] if s2 else [])
+                        if any(sd["via"] is not None for sd in side) and (not parent or (len(parent) == 1 and not first)):
+                            continue
+                        chain = [dict(c) for c in parent] + [leaf()]
+                        if _layout_ok(chain, side) and not any(_is_legacy_or_mixed(c) for c in chain):
+                            yield mk_case(chain, side=side, side_first=first)
+
+
 def gen_cases(tier, rng):
     quick = tier == "quick"
+    # ---- multiple inheritance rows of the decision table
+    mi = list(_mi_rows())
+    rng.shuffle(mi)
+    yield from (mi[:900] if quick else mi)
     n_chain = [0]
 
     def want_script():
@@ -1027,7 +1134,7 @@ def dist(case, obs):
     kinds = obs.get("classes", []) if isinstance(obs, dict) else []
     res = obs.get("results", []) if isinstance(obs, dict) else []
     d = {
-        "stream": "instances" if case["ops"] else "table",
+        "stream": "instances" if case["ops"] else ("table_mi" if case.get("side") else "table"),
         "depth": len(case["chain"]),
         "leaf_api": leaf["api"],
         "leaf_kind": kinds[-1] if kinds else "?",
@@ -1043,6 +1150,17 @@ def dist(case, obs):
 
 
 def shrink(case):
+    side = case.get("side", [])
+    for i in range(len(side)):
+        rest = side[:i] + side[i + 1:]
+        if _layout_ok(case["chain"], rest):
+            yield dict(case, side=rest)
+    for i, sd in enumerate(side):
+        if sd.get("plainAbove"):
+            yield dict(case, side=side[:i] + [dict(sd, plainAbove=False)] + side[i + 1:])
+    if side:
+        # with further bases only the flags of the classes are shrunk below (the chain keeps its length)
+        pass
     ops = case["ops"]
     for i in range(len(ops) - 1, -1, -1):
         (name, _), = ops[i].items()
@@ -1068,7 +1186,8 @@ def shrink(case):
             yield dict(case, chain=case["chain"][:k] + [c2] + case["chain"][k + 1:])
     if case["excBase"] and case.get("cfg", {}).get("root", "Exception") != "Exception":
         yield dict(case, cfg=dict(case.get("cfg", {}), root="Exception"))
-    if not case["ops"] and not case["insts"] and len(case["chain"]) > 1 and not case["chain"][0]["fields"]:
+    if (not case["ops"] and not case["insts"] and len(case["chain"]) > 1 and not case["chain"][0]["fields"]
+            and not any(sd.get("via") is not None for sd in case.get("side", []))):
         yield dict(case, chain=case["chain"][1:])
     for key, v in (("eqc", [0, 1, 2]), ("hcode", [0, 1, 2]), ("keyMap", [0, 1, 2])):
         if case[key] != v:
